@@ -42,6 +42,7 @@ import DDProofs.AutoDyn
 import DDProofs.AutoCopyVars
 import DDProofs.AutoShutdown
 import DDProofs.AutoDynTotal
+import DDProofs.ImageDynTotal
 open Std
 
 namespace DD
@@ -242,9 +243,12 @@ in use), names (declared or not) and operator strings, whether it returns or rai
 reordering fired at any node creation or not — keeps `AInv false` (count equation included),
 touches no handle other than the new one, and every live `Function` keeps its node and its
 meaning by name.  `copy` / `copy_bdd` INTO this manager from any source state.
-Not in this list: `image` / `preimage` with arbitrary arguments (main has no `image_total_dyn`;
-well-formed calls are `C08_image_dyn`), `reorder` / `add_var` / `find_or_add` (preconditions:
-`C08_ops_guarded`, `C08_find_or_add`). -/
+`image` / `preimage` with arbitrary arguments (last conjunct) come from `image_total_dyn` /
+`preimage_total_dyn` (DDProofs/ImageDynTotal.lean: the arguments are named and validated outside
+the decorator, the bodies — fused traversal, or `_copy_bdd` / `ite` / `quantify` in the fallback
+of `_preimage_of` — only add nodes); the documented result of well-formed calls is `C08_image_dyn`.
+Not in this list: `reorder` / `add_var` / `find_or_add` (preconditions: `C08_ops_guarded`,
+`C08_find_or_add`). -/
 theorem C08_ops_dyn_total (h : Nat) :
     (∀ name, AKeeps false h (aVar name h)) ∧
     (∀ b, AKeeps false h (aConst b h)) ∧
@@ -268,7 +272,8 @@ theorem C08_ops_dyn_total (h : Nat) :
     (∀ r, AKeeps false h (aConfigure r)) ∧
     (∀ ns, AKeeps false h (aDeclare ns)) ∧
     (∀ (src : AMgr) hu, AKeeps false h (aCopyTo src hu h)) ∧
-    (∀ (src : AMgr) hu, AKeeps false h (aCopyBddTo src hu h)) :=
+    (∀ (src : AMgr) hu, AKeeps false h (aCopyBddTo src hu h)) ∧
+    (∀ pre ht hs rn q fa, AKeeps false h (aImage pre ht hs rn q fa h)) :=
   ⟨fun n => aVar_keepsDynTotal n h, fun b => aConst_keeps b h,
    fun op hu hv hw => aApply_keepsDynTotal op hu hv hw h,
    fun hg hu hv => aIte_keepsDynTotal hg hu hv h,
@@ -283,7 +288,8 @@ theorem C08_ops_dyn_total (h : Nat) :
    fun hs ho => fLe_keepsDynTotal hs ho, fun hs ho => fLt_keepsDynTotal hs ho,
    aCollectGarbage_keepsAll h, fun r => aConfigure_keeps (off := false) r (fun hf => Bool.noConfusion hf) h,
    fun ns => aDeclare_keepsAll ns h,
-   fun src hu => aCopyTo_keepsDynTotal src hu h, fun src hu => aCopyBddTo_keepsDynTotal src hu h⟩
+   fun src hu => aCopyTo_keepsDynTotal src hu h, fun src hu => aCopyBddTo_keepsDynTotal src hu h,
+   fun pre ht hs rn q fa => aImage_keepsDynTotal pre ht hs rn q fa h⟩
 
 /-- the raw `find_or_add(var, low, high)` of `autoref.BDD` in BOTH modes (it runs outside the
 reordering decorator, so it never reorders: `C09_findOrAdd_outside_context`): under its
